@@ -5,7 +5,10 @@ CONSTANT NP = 6
 CONSTANT BP = 40
 CONSTANT PairStride = 41
 CONSTANT PairMinGood = 3
-CONSTANT Families = {"single", "infl", "pair", "pairinfl"}
+CONSTANT NS = 110
+CONSTANT StackOffsets = {3, 7, 20, -3, -7, -20}
+CONSTANT StackGrids = {1, 2, 3}
+CONSTANT Families = {"single", "infl", "pair", "pairinfl", "stack"}
 INIT Init
 NEXT Next
 INVARIANT C11_FastEqDef
@@ -19,5 +22,6 @@ INVARIANT C11_InterpBound
 INVARIANT C11_MultiIntersection
 INVARIANT C11_MultiShrinks
 INVARIANT C11_ExpIsSpec
+INVARIANT C11_StackCoverage
 INVARIANT C11_InflNoIsolated
 CHECK_DEADLOCK FALSE
